@@ -206,6 +206,23 @@ def validate_traces(module, traces, shards=None, cfg=TRACE_CFG, env=None, timeou
     return agg
 
 
+def tlc_enumerate(module, cfg, var, workers=None, timeout=3600, heap="8g", env=None):
+    """Spec -> code direction: let TLC explore the abstract model `module` exhaustively, dump its state graph and
+    return (TlcResult, [value of `var` in every reachable state]).  The caller concretises each abstract value and
+    replays it into the implementation."""
+    import tlaparse
+    tmp = scratch("verif_enum_")
+    try:
+        dump = os.path.join(tmp, "states.dump")
+        r = run_tlc(module, cfg, workers=workers or NCPU, timeout=timeout, heap=heap, env=env, want_out=False,
+                    extra=["-dump", dump])
+        require_ok(r, f"enumeration {module}")
+        vals = [v for v in tlaparse.parse_dump(dump, var) if v is not None]
+    finally:
+        shutil.rmtree(tmp, ignore_errors=True)
+    return r, vals
+
+
 def pinpoint(module, traces, agg, cap=40, want=None):
     """For behaviours whose events are independent observations: re-judge the events of (at most `cap`) failing
     behaviours one by one, in a single batch, to name the offending event.  -> [(tid, index, fails)]"""
